@@ -295,7 +295,10 @@ func (cma *CmaEsChol) findBestAndUpdateTask(task Task) Task {
 		task.F = bestF
 		copy(task.X, bestX)
 	} else {
-		if bestF < cma.bestF {
+		if bestF < cma.bestF || best != -1 && !cma.announced {
+			// The best sample of the first generation is stored whatever
+			// its value (it may be +Inf), so that bestX is always a
+			// location that has been evaluated.
 			cma.bestF = bestF
 			copy(cma.bestX, bestX)
 		}
